@@ -958,6 +958,7 @@ func (m *Nitro) StoreToDisk(dir string, snap *Snapshot, concurr int, itmCallback
 	}
 
 	// Initialize and setup delta processing
+	finishDelta := func() error { return nil }
 	if m.useDeltaFiles {
 		deltaWriters := make([]FileWriter, m.numWriters())
 		deltaFiles := make([]string, m.numWriters())
@@ -997,19 +998,43 @@ func (m *Nitro) StoreToDisk(dir string, snap *Snapshot, concurr int, itmCallback
 		fakeSnap.refCount = 1
 		snap = &fakeSnap
 
+		var terminated bool
+		terminate := func() error {
+			if terminated {
+				return nil
+			}
+			terminated = true
+			return m.changeDeltaWrState(dwStateTerminate, nil, nil)
+		}
+
+		// The writers must leave the delta mode on every path; a failure to
+		// do so must not turn an earlier error into success.
 		defer func() {
-			if err = m.changeDeltaWrState(dwStateTerminate, nil, nil); err == nil {
-				bs, _ := json.Marshal(deltaFiles)
-				err = ioutil.WriteFile(filepath.Join(deltadir, "files.json"), bs, 0660)
-				if err == nil {
-					for id, dwr := range deltaWriters {
-						deltaChecksums[id] = dwr.Checksum()
-					}
-					bs, _ = json.Marshal(deltaChecksums)
-					err = ioutil.WriteFile(filepath.Join(deltadir, "checksums.json"), bs, 0660)
-				}
+			if terr := terminate(); terr != nil && err == nil {
+				err = terr
 			}
 		}()
+
+		// Stops the delta writes, then finishes the delta files before their
+		// manifests announce them.
+		finishDelta = func() error {
+			if terr := terminate(); terr != nil {
+				return terr
+			}
+			for id, dwr := range deltaWriters {
+				deltaChecksums[id] = dwr.Checksum()
+				deltaWriters[id] = nil
+				if cerr := dwr.Close(); cerr != nil {
+					return cerr
+				}
+			}
+			bs, _ := json.Marshal(deltaFiles)
+			if werr := ioutil.WriteFile(filepath.Join(deltadir, "files.json"), bs, 0660); werr != nil {
+				return werr
+			}
+			bs, _ = json.Marshal(deltaChecksums)
+			return ioutil.WriteFile(filepath.Join(deltadir, "checksums.json"), bs, 0660)
+		}
 	}
 
 	visitorCallback := func(itm *Item, shard int) error {
@@ -1032,12 +1057,25 @@ func (m *Nitro) StoreToDisk(dir string, snap *Snapshot, concurr int, itmCallback
 	manifest, _ := json.Marshal(map[string]interface{}{"version": version})
 	if err = ioutil.WriteFile(filepath.Join(manifestdir, "nitro.json"), manifest, 0660); err == nil {
 		if err = m.Visitor(snap, visitorCallback, shards, concurr); err == nil {
+			err = finishDelta()
+		}
+		if err == nil {
+			// Finish the data files before the manifests announce them: a
+			// failed flush or close must fail the backup.
+			for id, wr := range writers {
+				checksums[id] = wr.Checksum()
+				writers[id] = nil
+				if cerr := wr.Close(); cerr != nil && err == nil {
+					err = cerr
+				}
+			}
+		}
+		// The data manifest is written last: a directory without it does not
+		// load, a directory with it is complete.
+		if err == nil {
 			bs, _ := json.Marshal(files)
 			err = ioutil.WriteFile(filepath.Join(datadir, "files.json"), bs, 0660)
 			if err == nil {
-				for id, wr := range writers {
-					checksums[id] = wr.Checksum()
-				}
 				bs, _ = json.Marshal(checksums)
 				err = ioutil.WriteFile(filepath.Join(datadir, "checksums.json"), bs, 0660)
 			}
